@@ -111,7 +111,10 @@ class World:
         self.step = step
         conf = CONF + STORES[store] + ('collapsed_forwarding on\n' if cf == 'on' else '')
         self.sq = lssmp.SmpSquid(ctx, name, port_base, workers=2, cache_dir='rock %s 16 slot-size=4096', memory_cache=True, conf=conf)
-        self.sq.conf_extra += self.sq.per_worker_ports_conf() + 'icon_directory %s/icons\n' % ctx.tree
+        # an empty mime table: five ASan processes that each load ~100 icons into their store dominate the start-up time
+        empty = os.path.join(self.sq.dir, 'mime.empty')
+        open(empty, 'w').close()
+        self.sq.conf_extra += self.sq.per_worker_ports_conf() + 'icon_directory %s/icons\nmime_table %s\n' % (ctx.tree, empty)
         self.origin_port = port_base + 1
         self.origin = ls.Listener(self.origin_port)
         self.cf = cf
